@@ -1,13 +1,21 @@
 import PgVerif.Proofs.LRSound
 import PgVerif.Proofs.Chart
+import PgVerif.Proofs.LRDet
 /-!
 # C04 — LR parser is sound always (and exact when its table is deterministic)
 
 Soundness is a theorem for *every* table passing the decidable predicate
 `Table.wf` (evaluated by the compiled driver on every implementation table),
 every input and every recognizer behaviour, with no bound on sizes or steps.
-The exactness clause (classical LR completeness) is decided by evaluating the
-verified chart oracle on the explored scope (see DESIGN.md).
+The exactness clause (classical LR completeness) is proved by validation
+(`C04_exact_when_deterministic`): for a well-formed table that passes the
+completeness validator of `Spec/LRValid.lean` with its item sets, whose cells hold
+at most one action and whose expected terminals are never lexically ambiguous on
+the input (`detTableB`, `lexDetB`: decidable, evaluated on every deterministic
+strategy-free table the implementation builds and on every input), the driver
+accepts **exactly** the sentences — for every such table and input, with no bound
+on sizes. That the accepted tree is the only parse tree (unambiguity) and equals
+GLR's single tree stays an oracle comparison on the explored scope.
 -/
 namespace Pg
 
@@ -52,6 +60,30 @@ theorem C04_lookahead_is_token_edge (T : Table) (inp : Input) (cf : LRCfg) (s p 
       (tok.term = STOP → cf.consumeInput = true → p = inp.len) :=
   nextTokens_ok cf s p
 
+/-- **Completeness when deterministic.** Over a validated, conflict-free table and a lexically
+unambiguous input the LR driver accepts every sentence. -/
+theorem C04_complete_when_deterministic (g : Grammar) (T : Table) (inp : Input)
+    (I : Nat → List LRV.VItem) (F : LRV.FirstData) (hv : LRV.lrComplete g T I F = true)
+    (hT : detTableB T = true) (hL : lexDetB T inp = true)
+    (hfin : ∀ s, T.n ≤ s → T.cells s = [] ∧ T.finish s = []) (hin : InputOK inp)
+    (lexDis : Bool) (h : Sentence g inp) :
+    ∃ (fuel : Nat) (t : Tree) (e p : Nat),
+      parseLR g T inp { consumeInput := true, lexDis := lexDis } fuel = .ok t e p :=
+  det_complete hv (detOK_of_bool hT hL hfin hin) hin _ rfl h
+
+/-- **Exactness when deterministic.** Under the same hypotheses and `Table.wf`, the driver accepts
+exactly the sentences. -/
+theorem C04_exact_when_deterministic (g : Grammar) (T : Table) (inp : Input)
+    (I : Nat → List LRV.VItem) (F : LRV.FirstData) (hw : T.wf g = true)
+    (hv : LRV.lrComplete g T I F = true) (hT : detTableB T = true) (hL : lexDetB T inp = true)
+    (hfin : ∀ s, T.n ≤ s → T.cells s = [] ∧ T.finish s = []) (hin : InputOK inp) (lexDis : Bool) :
+    Sentence g inp ↔ ∃ (fuel : Nat) (t : Tree) (e p : Nat),
+      parseLR g T inp { consumeInput := true, lexDis := lexDis } fuel = .ok t e p := by
+  constructor
+  · exact C04_complete_when_deterministic g T inp I F hv hT hL hfin hin lexDis
+  · rintro ⟨fuel, t, e, p, h⟩
+    exact ⟨t, C04_sound g T inp hw lexDis fuel t e p h⟩
+
 /-! Non-vacuity: the grammar `S → a` with its LR table is well formed and the
 driver accepts the input `a`. -/
 def exG : Grammar := { prods := [⟨0, [.nt 1, .t 0]⟩, ⟨1, [.t 1]⟩], start := 1 }
@@ -70,6 +102,14 @@ def exI : Input where
   mlen := fun t p => if t = 1 ∧ p = 0 then some 1 else none
 
 example : exT.wf exG = true := by decide
+
+/-- The hypotheses of `C04_exact_when_deterministic` are satisfiable: the table of `S → a` with its
+item sets passes the completeness validator and the determinism conditions. -/
+def exItems : Nat → List LRV.VItem := fun s =>
+  if s = 0 then [⟨0, 0, []⟩, ⟨1, 0, [0]⟩] else if s = 1 then [⟨0, 1, []⟩] else if s = 2 then [⟨1, 1, [0]⟩] else []
+def exFirst : LRV.FirstData := { fst := fun _ => [1], nul := fun _ => false }
+example : LRV.lrComplete exG exT exItems exFirst = true ∧ detTableB exT = true ∧ lexDetB exT exI = true := by
+  decide
 example : (match parseLR exG exT exI {} 10 with | .ok _ 1 1 => true | _ => false) = true := by decide
 
 end Pg
